@@ -86,3 +86,21 @@ PLANS["C14"] = {
                     "64-bit hashing is outside the model: the four positions of a key are logged by the implementation; the doorkeeper's answers are logged (a bloom filter may give false positives)"],
     "rule": "a case is one transition of the real code: one (byte, nibble) of the exhaustive byte tour, one random multi-byte row, one sizing, or one recorded access of a random stream into the real TinyLFU",
 }
+
+# ---- C18: no deadlock. Lock programs are extracted from the lock events of the runs below and model-checked (Locks.tla)
+PLANS["C18"] = {
+    "mc": {"quick": [{"module": "MC_LocksRef", "cfg": "MC_LocksRef", "constants": "reference lock programs (extracted from the unchanged tree and reviewed against the code), 5 thread slots, all interleavings"}],
+           "thorough": [{"module": "MC_LocksRef", "cfg": "MC_LocksRef", "constants": "reference lock programs, 5 thread slots, all interleavings"}]},
+    "profiles": {"quick": profs([("mix", 8), ("ttl", 6), ("pressure", 5), ("shutrace", 15), ("reads", 5)], 1),
+                 "thorough": profs([("mix", 8), ("ttl", 6), ("pressure", 5), ("shutrace", 15), ("reads", 5), ("burst", 5), ("boundary", 4)], 6)},
+    "stress": {"quick": [{"rounds": 30, "threads": 4, "ops": 400}], "thorough": [{"rounds": 400, "threads": 6, "ops": 600, "timeout_ms": 30000}]},
+    "locks": True,
+    "hang_is_violation": True,
+    "trace_spec": "TraceCacheD",
+    "assumptions": COMMON_ASSUMPTIONS + [
+        "lock events come from traced wrappers of parking_lot's RwLock/Mutex (swapped in under cfg cached_verif) and from one-line events at the DashMap and channel calls",
+        "a DashMap is treated as ONE reader-writer lock and the TTL shards / pool buffers as one lock each kind (any two may coincide): an over-approximation that is deadlock-free on the unchanged tree",
+        "the get_ref guard kept by a caller while calling back into the cache is excluded, as in the statement",
+    ],
+    "rule": "a case is a combination of recorded critical sections (one per thread slot) and an interleaving of them in Locks.tla; plus every harness run doubles as a hang detector; plus free-running stress rounds under a watchdog",
+}
